@@ -497,6 +497,14 @@ def run_segments(case, kind):
         if comes_back:
             o.label("chain_id_occurs_in_two_segments")
         o.mark_nontrivial(nseg >= 3 and len(sizes) >= 2 and comes_back)
+    # none of the segment functions may change the structure it is given
+    again, _, _ = build_atoms(case)
+    o.check(
+        all(np.array_equal(arr.get_annotation(k), again.get_annotation(k)) for k in again.get_annotation_categories())
+        and np.array_equal(arr.coord, again.coord),
+        "arguments_not_modified",
+        "the atom array changed while it was segmented",
+    )
     return o
 
 
